@@ -16,7 +16,8 @@ use serde_json::{json, Value};
 
 /// largest index j for which all (j!)^n homomorphisms can be enumerated by TLC in reasonable time
 fn kcheck(ng: usize, thorough: bool) -> usize {
-    match ng { 0 | 1 => if thorough { 8 } else { 7 }, 2 => if thorough { 6 } else { 5 }, 3 => 4, 4 => if thorough { 4 } else { 3 }, _ => 2 }
+    // (Sym(6)^2 = 518 k homomorphisms took TLC 40 min and was dropped)
+    match ng { 0 | 1 => if thorough { 8 } else { 7 }, 2 => 5, 3 => 4, 4 => 3, _ => 2 }
 }
 
 fn lowindex_event(name: &str, ng: usize, rels: &Vec<FreeWord>, k: usize, kc: usize) -> Value {
